@@ -353,6 +353,7 @@ private def gtail (o : Options) (values : List Value) (rt : List (Bytes × Bytes
   if evs.any (fun v => v.attrs.any vendorAttrPanics) then throw .panic
   if attrs.any fmtBad then throw .format
   if evs.any (fun v => v.attrs.any (fun a => hasTemplate a.typ && fmtBad a)) then throw .format
+  if exts.any (fun e => !(extVals e).isEmpty && !lexesAsIdent (identifier e.1)) then throw .format
   let imports :=
     stdI
     ++ (if !attrs.isEmpty || !evs.isEmpty then [Imp.radius] else [])
@@ -368,6 +369,13 @@ private def gtail (o : Options) (values : List Value) (rt : List (Bytes × Bytes
     ++ evs.flatMap (fun v => (Origin.vendor v.name, vendorHelperDecls (identifier v.name))
         :: v.attrs.map (fun a => (Origin.attr true a, attrDecls true a v.values)))
   pure ⟨imports, sections⟩
+
+/-- the format gate on the external attributes: one with a VALUE whose name does not lex as an identifier -/
+private def extBad (o : Options) (values : List Value) (rt : List (Bytes × Bytes) → Value → Route) : Bool :=
+  (sortStable (fun a b => bytesLt a.1 b.1) o.refs).any (fun e =>
+    !((values.filter (fun v => !o.ignore.contains v.attrName)).filter
+        (fun v => rt (sortStable (fun a b => bytesLt a.1 b.1) o.refs) v == .ext e.1)).isEmpty
+    && !lexesAsIdent (identifier e.1))
 
 /-- the standard-library part of the import list -/
 private def gstd (top vimps : List Imp) (evs : List EVendor) : List Imp :=
@@ -413,13 +421,16 @@ private theorem perm_gtail_ok_iff (o : Options) (values : List Value) (rt : List
     (attrs : List Attribute) (evs : List EVendor) (stdI : List Imp) :
     (∃ out, gtail o values rt attrs evs stdI = .ok out) ↔
       evs.any (fun v => v.attrs.any vendorAttrPanics) = false ∧ attrs.any fmtBad = false ∧
-      evs.any (fun v => v.attrs.any (fun a => hasTemplate a.typ && fmtBad a)) = false := by
-  unfold gtail
+      evs.any (fun v => v.attrs.any (fun a => hasTemplate a.typ && fmtBad a)) = false ∧
+      extBad o values rt = false := by
+  unfold gtail extBad
   dsimp only
   generalize evs.any (fun v => v.attrs.any vendorAttrPanics) = b1
   generalize attrs.any fmtBad = b2
   generalize evs.any (fun v => v.attrs.any (fun a => hasTemplate a.typ && fmtBad a)) = b3
-  cases b1 <;> cases b2 <;> cases b3 <;> simp [bind, Except.bind, pure, Except.pure, throw, throwThe, MonadExceptOf.throw]
+  generalize (sortStable (fun a b => bytesLt a.1 b.1) o.refs).any _ = b4
+  cases b1 <;> cases b2 <;> cases b3 <;> cases b4 <;>
+    simp [bind, Except.bind, pure, Except.pure, throw, throwThe, MonadExceptOf.throw]
 
 private theorem perm_gmid_ok_iff (cfg : Cfg) (o : Options) (values : List Value)
     (rt : List (Bytes × Bytes) → Value → Route) {as₁ as₂ : List Attribute} (hp : as₁.Perm as₂) :
@@ -509,7 +520,7 @@ private theorem perm_phases (cfg : Cfg) (d₁ d₂ : Dictionary) (o : Options) (
     simp only [List.append_nil, List.mem_reverse]
     exact (hk.map aid).mem_iff
   · rw [perm_gtail_ok_iff, perm_gtail_ok_iff, perm_evs_any, perm_evs_any, perm_evs_any, perm_evs_any,
-      hsame.any, hsame.any, hsa.any_eq]
+      hsame.any, hsame.any, hsa.any_eq, hv, perm_route_perm hsa]
 
 theorem accept_perm' (cfg : Cfg) (d₁ d₂ : Dictionary) (o : Options) (h : PermRel d₁ d₂) :
     accept cfg d₁ o = accept cfg d₂ o := by
